@@ -17,6 +17,7 @@ CONSTANTS
   Weak_VoteSetBitsIgnored = FALSE
   Weak_NewValidBlockIgnored = FALSE
   Weak_InitMarksPartsHad = FALSE
+  Weak_ClaimAppliedInReceive = FALSE
   Weak_VoteMarkedBeforeRoundCheck = FALSE
   Code_POLShadowedByCatchupRound = TRUE
   AllowedGaps <- AllGaps
